@@ -802,17 +802,14 @@ impl<'a, EntryType: Entry> PathSolution<'a, EntryType> {
                 .expect("valid path encoding should always produce a valid view"),
         );
 
-        let start_ia = interfaces
-            .first()
-            .expect("edges are checked to be not empty")
-            .interface
-            .isd_asn;
-
-        let end_ia = interfaces
-            .last()
-            .expect("edges are checked to be not empty")
-            .interface
-            .isd_asn;
+        // Segments come from the control plane and are not guaranteed to be well formed: if every
+        // hop field of the solution has zero interface ids, no interface was collected and there is
+        // no path to offer.
+        let (Some(first), Some(last)) = (interfaces.first(), interfaces.last()) else {
+            return Ok(None);
+        };
+        let start_ia = first.interface.isd_asn;
+        let end_ia = last.interface.isd_asn;
 
         let metadata = PathMetadata {
             expiration: expiration.into(),
